@@ -21,6 +21,7 @@ type mcase struct {
 	pfx  string
 	pos  string
 	acts []string
+	tp   bool // the Terminate callback panics on its first entry
 }
 
 func (c mcase) id() string {
@@ -28,7 +29,11 @@ func (c mcase) id() string {
 	if a == "" {
 		a = "none"
 	}
-	return fmt.Sprintf("%s/meta/%s/%s", c.pfx, c.pos, a)
+	k := "meta"
+	if c.tp {
+		k = "meta!"
+	}
+	return fmt.Sprintf("%s/%s/%s/%s", c.pfx, k, c.pos, a)
 }
 
 func metaHooks() *actors.MetaHooks {
@@ -128,8 +133,12 @@ func (e *metaEnv) issue(act string) {
 	}
 }
 
-func spawnMetaVictim(n gen.Node, parent gen.PID, label string) (*victim, error) {
-	m := actors.NewMeta(label, metaHooks())
+func spawnMetaVictim(n gen.Node, parent gen.PID, label string, tp bool) (*victim, error) {
+	h := metaHooks()
+	if tp {
+		h.OnTerm = func(m *actors.Meta, reason error) { termPanic(m.I) }
+	}
+	m := actors.NewMeta(label, h)
 	var alias gen.Alias
 	done := make(chan spawnRes, 1)
 	if err := n.Send(parent, spawnMeta{M: m, Done: done, A: &alias}); err != nil {
@@ -148,16 +157,36 @@ func spawnMetaVictim(n gen.Node, parent gen.PID, label string) (*victim, error) 
 	case <-time.After(10 * time.Second):
 		return nil, errors.New("watchdog: meta Start() not entered")
 	}
-	v := &victim{node: n, kind: "meta", label: label, inst: m.I, alias: alias, meta: m, parent: parent}
+	v := &victim{node: n, kind: "meta", tpanic: tp, label: label, inst: m.I, alias: alias, meta: m, parent: parent}
 	if !hk.WaitUntil(10*time.Second, v.idle) {
 		return nil, errors.New("watchdog: spawned meta process did not become idle")
 	}
 	return v, nil
 }
 
+// doublePanic: a handler (or Start) panic followed by a panicking Terminate
+func (c mcase) doublePanic() bool {
+	if !c.tp {
+		return false
+	}
+	if c.pos == "handler-panic" {
+		return true
+	}
+	for _, a := range c.acts {
+		if a == "m.panic" {
+			return true
+		}
+	}
+	return false
+}
+
 func runMeta(c mcase, scenario string) {
 	id := c.id()
 	if !hk.Want(id) || breakerOpen() {
+		return
+	}
+	if c.doublePanic() && !inChild() {
+		runChild(id, scenario)
 		return
 	}
 	r := &result{}
@@ -167,7 +196,7 @@ func runMeta(c mcase, scenario string) {
 		return
 	}
 	cleanup := []gen.PID{parent}
-	v, err := spawnMetaVictim(n, parent, id)
+	v, err := spawnMetaVictim(n, parent, id, c.tp)
 	if err != nil {
 		r.incon = "spawn meta: " + err.Error()
 		finish(id, scenario, id, false, 0, r, nil)
@@ -329,26 +358,51 @@ func directedMetaCases() []mcase {
 	var cs []mcase
 	for _, pos := range []string{"sleep", "handler", "handler-err", "handler-panic", "tosleep", "recheck", "reacquire", "term", "term-exit", "start.term", "dead-stop", "dead-err"} {
 		if metaHasOwnCause(pos) {
-			cs = append(cs, mcase{"D", pos, nil})
+			cs = append(cs, mcase{"D", pos, nil, false})
 		}
 		for _, a := range metaActs {
-			cs = append(cs, mcase{"D", pos, []string{a}})
+			cs = append(cs, mcase{"D", pos, []string{a}, false})
 		}
 		if pos == "sleep" {
 			for _, a := range metaActs {
 				for _, b := range metaActs {
 					if a != b {
-						cs = append(cs, mcase{"D", pos, []string{a, b}})
+						cs = append(cs, mcase{"D", pos, []string{a, b}, false})
 					}
 				}
 			}
 			continue
 		}
 		for _, p := range metaPairs {
-			cs = append(cs, mcase{"D", pos, p})
+			cs = append(cs, mcase{"D", pos, p, false})
 		}
 	}
 	return cs
+}
+
+// termPanicMetaCases: meta processes whose Terminate panics
+func termPanicMetaCases() []mcase {
+	var cs []mcase
+	for _, pos := range []string{"sleep", "handler", "handler-err", "handler-panic", "tosleep", "reacquire", "term", "term-exit", "start.term"} {
+		if metaHasOwnCause(pos) {
+			cs = append(cs, mcase{"P", pos, nil, true})
+		}
+		for _, a := range metaActs {
+			cs = append(cs, mcase{"P", pos, []string{a}, true})
+		}
+		for _, p := range [][]string{{"m.err", "m.stopnil"}, {"m.stoperr", "m.xmeta"}, {"m.pkill", "m.stoperr"}} {
+			cs = append(cs, mcase{"P", pos, p, true})
+		}
+	}
+	keep := map[string]bool{"P/meta!/sleep/m.panic": true, "P/meta!/handler-panic/none": true, "P/meta!/handler-panic/m.stopnil": true}
+	var out []mcase
+	for _, c := range cs {
+		if c.doublePanic() && !keep[c.id()] {
+			continue
+		}
+		out = append(out, c)
+	}
+	return out
 }
 
 func randomMetaCases(n int) []mcase {
@@ -361,7 +415,11 @@ func randomMetaCases(n int) []mcase {
 		for j := 0; j < m; j++ {
 			acts = append(acts, metaActs[rng.Intn(len(metaActs))])
 		}
-		cs = append(cs, mcase{fmt.Sprintf("R%d", k), ps[rng.Intn(len(ps))], acts})
+		c := mcase{fmt.Sprintf("R%d", k), ps[rng.Intn(len(ps))], acts, rng.Intn(4) == 0}
+		if c.doublePanic() {
+			c.tp = false
+		}
+		cs = append(cs, c)
 	}
 	return cs
 }
